@@ -741,6 +741,8 @@ func C16(c *Ctx) {
 	}
 
 	// ---- R16.9
+	r.Rule("R16.11", "a pause covers only what its un-pause restores: un-pausing always ends in available (the service FSM has one exit from pause), so ServiceManager.pauseService moves a service to pause only behind a test of the service's status that excludes frozen (a status comparison with frozen / available on the loaded service) - otherwise a service frozen by governance comes back available through any pause / un-pause cycle of its appchain (freeze + activate of the chain, an update or a withdrawn logout of the chain) without an activate proposal of its own, and interchanges again.")
+	c.c16PauseScope()
 	r.Rule("R16.9", "services resume only with their appchain: an UnPauseChainService cross-invoke of the appchain manager lies on the approved branch of Manage (approved activate / update end in available by the FSM table), or behind a comparison of the status the appchain returns to (lastStatus / a loaded status) with available or freezing - the statuses in which an appchain's services run; an unconditional un-pause where the appchain goes back to lastStatus (rejected logout, master-rule update of a frozen chain) lets a frozen appchain interchange.")
 	{
 		m := c.Contracts()
@@ -1184,4 +1186,54 @@ func receiptSuccessEdges(fn *ssa.Function) core.EdgeSet {
 		}
 		return false, 0
 	})
+}
+
+// c16PauseScope: R16.11.
+func (c *Ctx) c16PauseScope() {
+	r := c.R
+	fn := c.fn("R16.11", "internal/executor/contracts.(*ServiceManager).pauseService")
+	if fn == nil {
+		return
+	}
+	isPause := func(in ssa.Instruction) bool {
+		call, ok := in.(ssa.CallInstruction)
+		if !ok || core.CalleeObj(call) == nil || core.CalleeObj(call).Name() != "ChangeStatus" {
+			return false
+		}
+		for _, a := range call.Common().Args {
+			if s, ok := core.ConstString(core.Strip(a)); ok && s == "pause" {
+				return true
+			}
+			if enumName(a) == "EventPause" || strings.HasSuffix(enumName(a), "EventPause") {
+				return true
+			}
+			if core.Mentions(a, func(w ssa.Value) bool { s, ok := core.ConstString(w); return ok && s == "pause" }) {
+				return true
+			}
+		}
+		return false
+	}
+	notFrozen := condEdges(fn, func(f core.Fact, ifi *ssa.If) (bool, int) {
+		if f.Kind != core.FEqConst || f.Field != "Status" && !strings.Contains(f.Field, "Status") {
+			return false, 0
+		}
+		switch f.Const {
+		case "frozen":
+			return true, 1 - holdsEdge(f)
+		case "available":
+			return true, holdsEdge(f)
+		}
+		return false, 0
+	})
+	n := len(sites(fn, isPause))
+	r.Floor("R16.11", "status changes to pause in pauseService", n, 1)
+	for _, in := range sites(fn, isPause) {
+		key := "pauseService: pause only of a service that is not frozen"
+		if notFrozen.Len() == 0 {
+			r.Bad("R16.11", key, c.P.Pos(in.Pos()), "pauseService moves every service the FSM lets it (also a frozen one) to pause; the matching un-pause always ends in available: FreezeService approved, then FreezeAppchain + ActivateAppchain approved (or LogoutAppchain submitted and withdrawn by the chain admin alone) - the service is available again and its IBTPs are accepted, without any activate proposal of the service")
+			continue
+		}
+		rs := core.Reach([]core.Point{core.EntryOf(fn)}, nil, core.CutOf(notFrozen))
+		r.Check(!rs.Has(in), "R16.11", key, c.P.Pos(in.Pos()), "the status change lies behind a test excluding frozen", "the status change to pause is reachable without the test that excludes a frozen service")
+	}
 }
